@@ -107,6 +107,8 @@ const (
 	lBusy = 1 // the port is held by another server
 	lBad  = 2 // the host is not an address of this machine
 	lCert = 3 // StartTLS only: the key pair cannot be loaded
+	lCfg  = 4 // StartMTLS only: the mTLS configuration is invalid (no client CAs); no OnStart hooks, no observability —
+	// the model's "start-up fails before anything is served" with an empty OnStart list (case line: listen kind 3)
 )
 
 // entry points
@@ -251,7 +253,7 @@ func (sc *Scenario) needsSerial() bool {
 }
 
 func (sc *Scenario) tokens(l *hx.Line) {
-	l.Tok("P").Nat(sc.Proto).Tok("X").Nat(sc.LateHup).Bool(sc.MetDead).Bool(sc.metricsRace()).Bool(sc.lateReg()).Bool(sc.ByDeadline).Bool(sc.shortWrite()).Bool(sc.Metrics).Bool(sc.Tracing).Nat(sc.Listen)
+	l.Tok("P").Nat(sc.Proto).Tok("X").Nat(sc.LateHup).Bool(sc.MetDead).Bool(sc.metricsRace()).Bool(sc.lateReg()).Bool(sc.ByDeadline).Bool(sc.shortWrite()).Bool(sc.Metrics).Bool(sc.Tracing).Nat(min(sc.Listen, lCert))
 	ints := func(xs []int) {
 		l.Nat(len(xs))
 		for _, x := range xs {
@@ -1208,6 +1210,9 @@ func (r *runner) startCtx(ctx context.Context) error {
 			r.discard = "pki: " + err.Error()
 			return err
 		}
+		if r.sc.Listen == lCfg {
+			return r.a.StartMTLS(ctx, p.serverCert)
+		}
 		return r.a.StartMTLS(ctx, p.serverCert, app.WithClientCAs(p.pool))
 	}
 	return r.a.Start(ctx)
@@ -1295,6 +1300,10 @@ func (r *runner) build() error {
 		return err
 	}
 	r.a = a
+	if sc.Listen == lCfg {
+		// no OnStart hook is going to run: the line that tells whether the startup buffer was written out is logged here
+		a.BaseLogger().Info(startupMarker)
+	}
 
 	a.GET("/__probe", func(c *app.Context) {
 		c.Response.Header().Set("X-Verif-Case", r.id)
@@ -1631,6 +1640,9 @@ func (r *runner) run() obsT {
 		}()
 		err := r.start()
 		r.res = classify(err)
+		if sc.Listen == lCfg && err != nil && r.res == 5 {
+			r.res = 2 // the configuration fault this scenario injects (the error carries no sentinel to test for)
+		}
 		if err != nil {
 			r.errText = err.Error()
 		}
